@@ -339,14 +339,9 @@ func (t *Table) ToCSV(o *csv.Writer, startRow int, warnings io.Writer) (rowCount
 		// Construct a spreadsheet-style cell label.
 		colName := make([]byte, 10)
 		colNamePos := len(colName)
-		for x := len(row); x > 0; {
+		for x := len(row); x >= 0; x = x/26 - 1 {
 			colNamePos--
 			colName[colNamePos] = 'A' + byte(x%26)
-			x /= 26
-		}
-		if colNamePos == len(colName) {
-			colNamePos--
-			colName[colNamePos] = 'A'
 		}
 		colName = colName[colNamePos:]
 		// Print warnings.
